@@ -645,6 +645,19 @@ func (it *Interp) factOf(fr *Frame, cond ssa.Value, taken bool) *floatFact {
 	a, ok1 := it.val(fr, bo.X).(FloatV)
 	b, ok2 := it.val(fr, bo.Y).(FloatV)
 	if !ok1 || !ok2 {
+		// equality of two points made of identified unknowns: a fact without order content
+		pa, ok1 := it.val(fr, bo.X).(ArrV)
+		pb, ok2 := it.val(fr, bo.Y).(ArrV)
+		if ok1 && ok2 && len(pa.Elems) == len(pb.Elems) && len(pa.Elems) > 0 {
+			for i := range pa.Elems {
+				fa, ok1 := pa.Elems[i].(FloatV)
+				fb, ok2 := pb.Elems[i].(FloatV)
+				if !ok1 || !ok2 || it.termOf(fa) == nil || it.termOf(fb) == nil {
+					return nil
+				}
+			}
+			return &floatFact{Op: bo.Op.String() + " (points)", Taken: taken}
+		}
 		return nil
 	}
 	ta, tb := it.termOf(a), it.termOf(b)
@@ -1241,6 +1254,27 @@ func (it *Interp) binop(s *State, fr *Frame, x *ssa.BinOp, a, b AV) AV {
 		if r, ok := infCompare(x.Op, av, bv); ok {
 			return r
 		}
+		if it.Terms && (av.Known != bv.Known) {
+			// a square against a non-positive constant
+			k, sq, op := av, bv, x.Op
+			if bv.Known {
+				k, sq = bv, av
+				op = map[token.Token]token.Token{token.LSS: token.GTR, token.GTR: token.LSS, token.LEQ: token.GEQ, token.GEQ: token.LEQ, token.EQL: token.EQL, token.NEQ: token.NEQ}[op]
+			}
+			// now: k op sq
+			if termNonNeg(it.termOf(sq)) && sq.Finite {
+				switch {
+				case k.V <= 0 && op == token.GTR: // k > sq
+					return boolOf(false)
+				case k.V <= 0 && op == token.LEQ: // k <= sq
+					return boolOf(true)
+				case k.V < 0 && (op == token.GEQ || op == token.EQL):
+					return boolOf(false)
+				case k.V < 0 && (op == token.LSS || op == token.NEQ):
+					return boolOf(true)
+				}
+			}
+		}
 		if it.Terms && !av.Known && !bv.Known && av.Finite && bv.Finite {
 			// the same finite unknown on both sides
 			if ia, ok1 := atomOf(it.termOf(av)); ok1 {
@@ -1378,6 +1412,23 @@ func (it *Interp) binop(s *State, fr *Frame, x *ssa.BinOp, a, b AV) AV {
 // infCompare decides comparisons between a known infinity and a finite input.
 func infCompare(op token.Token, a, b FloatV) (BoolV, bool) {
 	flip := map[token.Token]token.Token{token.LSS: token.GTR, token.GTR: token.LSS, token.LEQ: token.GEQ, token.GEQ: token.LEQ, token.EQL: token.EQL, token.NEQ: token.NEQ}
+	// the largest finite value bounds every finite unknown (only the non-strict side is decided)
+	if b.Known && !a.Known && a.Finite && (b.V == math.MaxFloat64 || b.V == -math.MaxFloat64) {
+		switch {
+		case b.V > 0 && op == token.GTR, b.V < 0 && op == token.LSS:
+			return boolOf(false), true
+		case b.V > 0 && op == token.LEQ, b.V < 0 && op == token.GEQ:
+			return boolOf(true), true
+		}
+	}
+	if a.Known && !b.Known && b.Finite && (a.V == math.MaxFloat64 || a.V == -math.MaxFloat64) {
+		switch {
+		case a.V > 0 && op == token.LSS, a.V < 0 && op == token.GTR:
+			return boolOf(false), true
+		case a.V > 0 && op == token.GEQ, a.V < 0 && op == token.LEQ:
+			return boolOf(true), true
+		}
+	}
 	if b.Known && math.IsInf(b.V, 0) && a.Finite && !a.Known {
 		a, b = b, a
 		op = flip[op]
@@ -1518,6 +1569,9 @@ func knownEqual(a, b AV) (bool, bool) {
 		y, ok := b.(FloatV)
 		if ok && x.Known && y.Known {
 			return x.V == y.V, true
+		}
+		if ok && !x.Known && !y.Known && x.Sym > 0 && x.Sym == y.Sym && x.Finite && y.Finite && !x.Opq && !y.Opq {
+			return true, true // the same finite unknown
 		}
 	case BoolV:
 		y, ok := b.(BoolV)
